@@ -33,6 +33,59 @@ def main():
         w("]")
         for n in ["FLAG_BYTES", "FLAG_PICKLE", "FLAG_INTEGER", "FLAG_LONG", "FLAG_COMPRESSED", "FLAG_TEXT"]:
             w(f"def {n.lower().replace('flag_', 'flag')} : Nat := {int(getattr(serde, n))}")
+        # ---- C16: signatures and forwarding tables --------------------------------------------------------
+        import ast, inspect, textwrap
+        from pymemcache.client.base import Client, PooledClient
+        from pymemcache.client.hash import HashClient
+        methods = ["set", "set_many", "add", "replace", "append", "prepend", "cas", "get", "gat", "gets", "gats", "get_many", "gets_many",
+                   "delete", "delete_many", "incr", "decr", "touch"]
+
+        def sig(cls, m):
+            out = []
+            for n, prm in list(inspect.signature(getattr(cls, m)).parameters.items())[1:]:
+                kind = {prm.VAR_POSITIONAL: "*", prm.VAR_KEYWORD: "**"}.get(prm.kind, "")
+                out.append((kind + n, "REQUIRED" if prm.default is prm.empty else repr(prm.default)))
+            return out
+
+        def lean_sig(l):
+            return "[" + ", ".join(f"({lean_str(a)}, {lean_str(b)})" for a, b in l) + "]"
+        w("def keyMethods : List String := [" + ", ".join(lean_str(m) for m in methods) + "]")
+        for name, cls in (("client", Client), ("pooled", PooledClient), ("hash", HashClient)):
+            w(f"def {name}Sigs : List (String × List (String × String)) := [")
+            w(",\n".join(f"  ({lean_str(m)}, {lean_sig(sig(cls, m))})" for m in methods))
+            w("]")
+        # how each PooledClient method calls the inner client: positional argument names and keyword (name, value-name) pairs
+        fw = []
+        for m in methods:
+            src = textwrap.dedent(inspect.getsource(getattr(PooledClient, m)))
+            tree = ast.parse(src)
+            calls = [n for n in ast.walk(tree) if isinstance(n, ast.Call) and isinstance(n.func, ast.Attribute)
+                     and isinstance(n.func.value, ast.Name) and n.func.value.id == "client"]
+            inner = [c for c in calls if c.func.attr == m]
+            if len(inner) != 1:
+                fw.append((m, "?", [], []))
+                continue
+            c = inner[0]
+            pos = [a.id if isinstance(a, ast.Name) else "?" for a in c.args]
+            kws = [(k.arg or "**", k.value.id if isinstance(k.value, ast.Name) else "?") for k in c.keywords]
+            fw.append((m, c.func.attr, pos, kws))
+        w("def pooledForward : List (String × String × List String × List (String × String)) := [")
+        w(",\n".join(f"  ({lean_str(m)}, {lean_str(t)}, [{', '.join(lean_str(x) for x in pos)}], [{', '.join('(' + lean_str(a) + ', ' + lean_str(b) + ')' for a, b in kws)}])"
+                     for m, t, pos, kws in fw))
+        w("]")
+        # constructor options that reach the working client
+        src = textwrap.dedent(inspect.getsource(PooledClient._create_client))
+        call = [n for n in ast.walk(ast.parse(src)) if isinstance(n, ast.Call) and isinstance(n.func, ast.Attribute) and n.func.attr == "client_class"][0]
+        kws = [(k.arg, ast.unparse(k.value)) for k in call.keywords]
+        w("def pooledCreateClientKw : List (String × String) := [" + ", ".join(f"({lean_str(a)}, {lean_str(b)})" for a, b in kws) + "]")
+        hk = sorted(HashClient([]).default_kwargs.keys())
+        w("def hashDefaultKwargs : List String := [" + ", ".join(lean_str(k) for k in hk) + "]")
+        hkp = sorted(HashClient([], use_pooling=True).default_kwargs.keys())
+        w("def hashPooledDefaultKwargs : List String := [" + ", ".join(lean_str(k) for k in hkp) + "]")
+        cp = [n for n in inspect.signature(Client.__init__).parameters][1:]
+        w("def clientCtorParams : List String := [" + ", ".join(lean_str(k) for k in cp) + "]")
+        pp = [n for n in inspect.signature(PooledClient.__init__).parameters][1:]
+        w("def pooledCtorParams : List String := [" + ", ".join(lean_str(k) for k in pp) + "]")
     except Exception as e:  # an unimportable tree is reported by the checks, not here
         w(f"-- extraction failed: {e!r}")
         w("def extractionFailed : Bool := true")
